@@ -23,3 +23,30 @@ Theorem c08_payload_is_ciphertext : forall sha256 sha512 hmac256 kdf outer_enc c
            ++ header_mac sha512 hmac256 (hmac_key_of sha512 (d_master_seed d) transformed) header
            ++ write_blocks sha512 hmac256 encrypted (hmac_key_of sha512 (d_master_seed d) transformed).
 Proof. exact dump4_payload_is_ciphertext. Qed.
+
+(* ---------------- protected values inside the payload (model xml/XmlDump.v) ----------------
+   The texts of the Protected elements of the written document are, in document order, the base64
+   images of the protected values XORed with consecutive, disjoint slices of the inner key stream:
+   value i uses the slice that starts at the sum of the lengths of the values before it, and the
+   writer leaves the stream at the sum of all lengths. *)
+From KP Require Import XmlTypes XmlDump XmlSpec XmlStream XmlRoundTrip XmlAlign.
+Theorem c08_protected_texts :
+  forall (gzip : bytes -> bytes) (gunzip : bytes -> option bytes) (c : content) (ks : bytes),
+  wf_content gzip gunzip c = true -> bytes_ok ks = true ->
+  prot_texts (dump_events gzip c ks) = map Base64.b64_encode (enc_stream (protected_values_in_order c) ks).
+Proof. exact dump_protected_texts. Qed.
+
+Theorem c08_nth_value_nth_slice :
+  forall (l : list bytes) (ks : bytes) (i : nat) (p : bytes),
+  nth_error l i = Some p ->
+  nth_error (enc_stream l ks) i = Some (xor_ks p (LE.drop (total_length (firstn i l)) ks)).
+Proof. exact enc_stream_nth. Qed.
+
+Theorem c08_slice_is_exactly_the_value_length :
+  forall p ks : bytes, xor_ks p ks = xor_ks p (LE.take (length p) ks).
+Proof. exact xor_ks_prefix. Qed.
+
+Theorem c08_stream_consumed :
+  forall (gzip : bytes -> bytes) (c : content) (ks : bytes),
+  dump_stream_after gzip c ks = LE.drop (total_length (protected_values_in_order c)) ks.
+Proof. exact dump_consumes. Qed.
